@@ -190,8 +190,7 @@ def scale_rows(A, v, copy=True):
     if copy:
         A = A.copy()
         A.data = np.asarray(A.data, dtype=upcast(A.dtype, v.dtype))
-    else:
-        v = np.asarray(v, dtype=A.dtype)
+    v = np.asarray(v, dtype=A.dtype)
 
     if issparse(A) and A.format == 'csr':
         csr_scale_rows(M, N, A.indptr, A.indices, A.data, v)
@@ -268,8 +267,7 @@ def scale_columns(A, v, copy=True):
     if copy:
         A = A.copy()
         A.data = np.asarray(A.data, dtype=upcast(A.dtype, v.dtype))
-    else:
-        v = np.asarray(v, dtype=A.dtype)
+    v = np.asarray(v, dtype=A.dtype)
 
     if issparse(A) and A.format == 'csr':
         csr_scale_columns(M, N, A.indptr, A.indices, A.data, v)
